@@ -123,10 +123,8 @@ def run_tlc_trace(scr, mode, trace_path, timeout=1500):
         if line.startswith('<<"HIGHWATER"'):
             f = parse_tuple_fields(line)
             hw = (f[1], f[2])
-            continue
-        m = RE_TUP.match(line)
-        if not m:
-            continue
+    from lib import RE_TUP_ML
+    for m in RE_TUP_ML.finditer(out):
         f = parse_tuple_fields(m.group(2))
         if m.group(1) == "VIOL":
             viol.append(f)
